@@ -200,7 +200,7 @@ EndOfFile ==
   /\ err = "" /\ ph # "end" /\ Recs[l].kind = "file" /\ i = Len(B)
   /\ IF EndProblem # "" THEN err' = EndProblem /\ ph' = ph ELSE err' = err /\ ph' = "end"
   /\ UNCHANGED <<l, i, k, fmt, ntrks, div, trk, rem, acc, vl, st, need, d1, mt, eot, open, tick, delta, pay, evs>>
-Skipped == Recs[l].kind \in {"skipped", "nofile", "listing"} /\ ph # "end" /\ ph' = "end"
+Skipped == Recs[l].kind \in {"skipped", "nofile", "listing", "hugefile"} /\ ph # "end" /\ ph' = "end"
            /\ UNCHANGED <<l, i, k, fmt, ntrks, div, trk, rem, acc, vl, st, need, d1, mt, eot, open, tick, delta, pay, evs, err>>
 \* terminal stuttering, so that TLC's deadlock check flags any file the recogniser gets stuck in
 Finished == (ph = "end" \/ err # "") /\ UNCHANGED vars
@@ -208,4 +208,9 @@ Finished == (ph = "end" \/ err # "") /\ UNCHANGED vars
 Next == Byte \/ EndOfFile \/ Skipped \/ Finished
 Spec == Init /\ [][Next]_vars
 Inv == err = ""
+\* files with thousands of tracks are summarised by the strict reader instead of being walked byte by byte
+HugeInv == Recs[l].kind = "hugefile" =>
+             /\ Recs[l].readerOk                        \* structurally valid: every chunk found, nothing left over
+             /\ Recs[l].declared = Recs[l].tracks       \* exactly --track chunks, as the header says
+             /\ Recs[l].eots = Recs[l].tracks /\ Recs[l].format = 1
 =============================================================================
